@@ -24,13 +24,14 @@ ALPHABET = {
     "&a": ("refi", "destr", 0, None),
     "=fn": ("i32", "plain", 0, FN),
     "=fn_": ("i32", "plain", 0, FN + "_"),
+    "=fn__": ("i32", "plain", 0, FN + "__"),
     "=arg0": ("i32", "plain", 0, "arg0"),
     "=arg1": ("i32", "plain", 0, "arg1"),
     "=_arg1": ("i32", "plain", 0, "_arg1"),
     "N(=fn)": ("N", "destr", 0, FN),
     "r#=fn": ("i32", "raw", 0, FN),
 }
-SPECIAL_ONCE = {"=fn", "=fn_", "=arg0", "=arg1", "=_arg1", "N(=fn)", "r#=fn"}
+SPECIAL_ONCE = {"=fn", "=fn_", "=fn__", "=arg0", "=arg1", "=_arg1", "N(=fn)", "r#=fn"}
 
 
 def valid(lst):
